@@ -222,6 +222,7 @@ FOCUS_SNIPPETS = [
     'acl a {\n  "10.0.0.0"/8;\n  !"10.1.0.0"/16;\n  "::1";\n}\n',
     'sub vcl_recv {\n  switch (req.url) {\n  case "a":\n    esi;\n    break;\n  case ~ "b":\n    fallthrough;\n  default:\n    break;\n  }\n}\n',
     'sub vcl_recv {\n  set var.p = 10%;\n  set req.http.X = "a" + 5% + "b";\n  log 1% "x";\n  if (var.p == 10%) {\n    esi;\n  }\n}\n',
+    'sub vcl_recv {\n  switch (req.url) {\n  case "a" "b":\n    break;\n  case "c" + "d" req.http.E:\n    break;\n  default:\n    break;\n  }\n}\n',
     'sub b {\n}\nsub a {\n}\nsub vcl_log {\n}\nsub vcl_recv {\n}\nacl z {\n}\nacl y {\n}\nbackend q {\n}\ntable t {\n}\nimport x;\ninclude "i";\npenaltybox p {\n}\nratecounter r {\n}\ndirector d random {\n}\n',
 ]
 
@@ -553,6 +554,35 @@ def documented_comments(toks):
     return [t[2] for t in toks if t[0] == "C"]
 
 
+def case_tests_collide(toks):
+    """two `case <test> :` of the source spell the same test once the "+" of concatenations is ignored (known finding
+    switch-case-concat-spelling: the parser's duplicate test compares spellings, the formatter unifies them)"""
+    sig = [t for t in toks if t[0] == "T"]
+    tests, i = [], 0
+    while i < len(sig):
+        if sig[i][1] == "CASE":
+            j = i + 1
+            while j < len(sig) and sig[j][1] != "COLON":
+                j += 1
+            tests.append(tuple((t[1], t[2]) for t in sig[i + 1:j] if t[1] != "PLUS"))
+            i = j
+        i += 1
+    return len(tests) != len(set(tests))
+
+
+def token_runs(sig):
+    """sorted runs of (type, literal) cut behind every ; , { } : invariant under a permutation of properties"""
+    runs, cur = [], []
+    for t in sig:
+        cur.append(t)
+        if t[0] in ("SEMICOLON", "COMMA", "LEFT_BRACE", "RIGHT_BRACE"):
+            runs.append(tuple(cur))
+            cur = []
+    if cur:
+        runs.append(tuple(cur))
+    return sorted(runs)
+
+
 def tail_comments(toks):
     """comments behind the last significant token from the first one that starts a line (not a documented
     placeholder: `} <comment>` is the comment on the line of the brace): counted as a dimension"""
@@ -573,6 +603,17 @@ DECL_OPTION_PAIRS = [("sort_declaration_property", True), ("align_declaration_pr
                      ("sort_declaration", True), ("comment_style", "slash"), ("trailing_comment_width", 4)]
 LITERAL_CONFS = [("default", {}), ("narrow+tab+align", {"line_width": 20, "indent_style": "tab", "align_trailing_comment": True}),
                  ("unlimited+juxtaposed", {"line_width": -1, "explicit_string_concat": False, "break_compound_conditions": False})]
+def _cube(names):
+    out = []
+    for m in range(1 << len(names)):
+        c = {n: bool(m >> k & 1) for k, n in enumerate(names)}
+        out.append(("cube:" + "".join("1" if c[n] else "0" for n in names), c))
+    return out
+
+
+BOOL_CUBES = _cube(["explicit_string_concat", "else_if", "return_statement_parenthesis", "should_use_unset",
+                    "break_compound_conditions"]) + \
+    _cube(["sort_declaration", "sort_declaration_property", "align_declaration_property", "align_trailing_comment"])
 SCALE_CONFS = [("default", {}), ("unlimited+juxtaposed", {"line_width": -1, "explicit_string_concat": False}),
                ("tab+align+sort+no-break+narrow", {"indent_style": "tab", "align_trailing_comment": True, "line_width": 40,
                                                    "sort_declaration_property": True, "break_compound_conditions": False,
@@ -622,6 +663,11 @@ def plan_pairs(ctx, items, n_random):
             confs += flips                      # exhaustive: every single-option flip
             if o != "repo":
                 confs += pairs_conf
+            if o == "focus":
+                confs += BOOL_CUBES             # all 2^5 + 2^4 values of the two groups of interacting boolean options
+                # line width boundaries for chunking: every width from 1 to the longest source line + 2
+                longest = max(len(x) for x in it["src"].decode("utf-8", "replace").split("\n"))
+                confs += [("line_width=%d" % w, {"line_width": w}) for w in range(1, min(longest + 3, 160))]
         elif o.startswith("decl"):
             confs.append(("default", {}))
             confs += pairs_conf                 # every pair of the declaration options
@@ -664,9 +710,10 @@ class Pipeline:
         self.ok = [i for i, r in enumerate(self.res) if r["status"] == "ok"]
         outs = lex_raw([self.res[i]["f1"] for i in self.ok])
         self.raw_out = dict(zip(self.ok, outs))
-        # the token model does not cover sort_declaration_property (empty-line groups are layout)
-        self.modelled = [i for i in self.ok if not full(self.pairs[i][2])["sort_declaration_property"]
-                         and self.raw_in[id(self.pairs[i][0])] is not None]
+        # the token model does not cover sort_declaration_property (empty-line groups are layout): those pairs are
+        # compared up to the order of the properties (multiset of the token runs between ; , { }) - see _judge
+        self.modelled = [i for i in self.ok if self.raw_in[id(self.pairs[i][0])] is not None]
+        self.perm_only = set(i for i in self.modelled if full(self.pairs[i][2])["sort_declaration_property"])
         mrep = model_norm(self.model, [(self.pairs[i][2], self.raw_in[id(self.pairs[i][0])]) for i in self.modelled])
         self.model_out = dict(zip(self.modelled, mrep))
         self.index = {}
@@ -686,7 +733,8 @@ class Pipeline:
     def _judge(self):
         self.stats = {"pairs": len(self.pairs), "parseerr": 0, "formatted": len(self.ok), "model_compared": 0,
                       "model_agree": 0, "comments_checked": 0, "comments_total": 0, "ast_same": 0, "f2_same": 0,
-                      "det_same": 0, "skipped_sort_property_for_model": len(self.ok) - len(self.modelled)}
+                      "det_same": 0, "skipped_sort_property_for_model": len(self.ok) - len(self.modelled),
+                      "model_compared_up_to_property_order": len(self.perm_only)}
         unparseable = set(id(self.pairs[i][0]) for i, r in enumerate(self.res) if r["status"] == "parseerr")
         for i, r in enumerate(self.res):
             it, lab, c = self.pairs[i]
@@ -706,7 +754,9 @@ class Pipeline:
             else:
                 self.stats["det_same"] += 1
             if not r["re"]:
-                self.add(i, "reparse", "formatted text does not parse: " + r["re_msg"][:160])
+                self.add(i, "reparse", "formatted text does not parse: " + r["re_msg"][:160],
+                         {"facts": {"construct": "switch-case-concat-spelling"}}
+                         if "Duplicate case label" in r["re_msg"] and case_tests_collide(parse_raw(self.raw_in[id(it)])) else None)
             elif not r["ast"]:
                 self.add(i, "ast", "tree of the formatted text differs: " + sexp_diff(r["ast_exp"], r["ast_got"]))
             else:
@@ -770,6 +820,19 @@ class Pipeline:
                     os_ = [(t[1], t[2]) for t in tout if t[0] == "T"]
                     mc = [t[2] for t in m if t[0] == "C"]
                     good = True
+                    if i in self.perm_only:
+                        if token_runs(ms) != token_runs(os_):
+                            good = False
+                            a, b = token_runs(ms), token_runs(os_)
+                            k = first_diff(a, b)
+                            self.add(i, "tokens_sig", "sort_declaration_property: the token runs between ; , { } of the formatted text are not a permutation of those of norm(tokens of the source): model %r | formatter %r" % (
+                                a[k] if k < len(a) else None, b[k] if k < len(b) else None))
+                        if sorted(mc) != sorted(cout):
+                            good = False
+                            self.add(i, "tokens_com", "sort_declaration_property: the comments of the formatted text are not those of norm(tokens of the source) as a multiset")
+                        if good:
+                            self.stats["model_agree"] += 1
+                        continue
                     if ms != os_:
                         good = False
                         k = first_diff(ms, os_)
